@@ -189,12 +189,12 @@ func runC18(e *Engine, r *Report) {
 
 	// ---- witness payload stripping
 	strip := r.need("internal/raft.makeMetadataEntries")
-	wsnap := r.need("internal/raft.makeWitnessSnapshot")
+	wsnap := r.helper("internal/raft.makeWitnessSnapshot")
 	msgEntries := r.needField("raftpb", "Message", "Entries")
 	msgSnapshot := r.needField("raftpb", "Message", "Snapshot")
 	msgType := r.needField("raftpb", "Message", "Type")
 	replicateC := r.needConst("raftpb", "Replicate")
-	if strip != nil && wsnap != nil && msgEntries != nil && msgSnapshot != nil && msgType != nil && replicateC != nil {
+	if strip != nil && msgEntries != nil && msgSnapshot != nil && msgType != nil && replicateC != nil {
 		witnessOK := func(pol bool) func(fs []Fact) bool {
 			return func(fs []Fact) bool {
 				return e.holds(reqBool("witness lookup", func(v ssa.Value) bool {
@@ -318,7 +318,23 @@ func runC18(e *Engine, r *Report) {
 				continue
 			}
 			n++
-			ok := phiSelectsUnder(e, w.Val, e.callV(wsnap), witnessOK)
+			ok := false
+			if wsnap != nil {
+				ok = phiSelectsUnder(e, w.Val, e.callV(wsnap), witnessOK)
+			} else {
+				// role-level form (the stripping helper was inlined): on the
+				// witness edge the snapshot copy is marked Witness and loses its files
+				ssWitness := e.Field("raftpb", "Snapshot", "Witness")
+				forEachInstr(w.Fn, func(in ssa.Instruction) {
+					if st, isS := in.(*ssa.Store); isS {
+						if f, _, isF := fieldOfAddr(st.Addr); isF && f == ssWitness {
+							if cb, isC := isConstBool(st.Val); isC && cb && witnessOK(true)(FactsAt(in)) {
+								ok = true
+							}
+						}
+					}
+				})
+			}
 			r.check(ok, "GD-witness-snapshot", "InstallSnapshot.Snapshot built in "+fname(w.Fn), e.ipos(w.Instr),
 				"a witness receives the stripped witness snapshot", "a witness can be sent a full snapshot record")
 		}
